@@ -30,7 +30,13 @@ NAME_MODES = ['str', 'int0', 'empty0', 'person']
 REQUIRED_COUNTERS = ['overhang_present', 'no_overhang', 'party_outside_tier', 'party_without_votes',
                      'levelling_iterations_ge2', 'by_constituency', 'multistage_wrapped',
                      'allow', 'level', 'd_hondt', 'sainte_lague', 'hare_lr', 'tie_in_baseline', 'multistage_depth2', 'default_overall', 'apportioned', 'intermediate_tie', 'alabama_lr', 'cty_party_name_clash', 'clash_str', 'clash_int0',
-                     'clash_empty0', 'all_zero_votes']
+                     'clash_empty0', 'all_zero_votes',
+                     'd_hondt_mod', 'sainte_lague_mod', 'coef_decimal', 'coef_default', 'coef_float', 'coef_fraction',
+                     'votes_all_fraction', 'votes_fraction', 'votes_ge_1e18', 'big_votes_tie', 'fraction_votes_tie',
+                     'shared_evaluator', 'separate_evaluators', 'two_elections', 'second_after_refusal',
+                     'other_configuration_first', 'zero_direct_and_seatless_voter', 'two_zero_vote_parties',
+                     'house_0', 'house_1', 'house_below_direct', 'many_wasted_votes', 'multistage_3stages',
+                     'multistage_3stages_depth2', 'allocator_default', 'apportioner_int']
 RULE = ('second-vote dicts over 2-6 parties (tie-forcing small sets, zero-vote parties, up to 10^12, some Fractions); '
         'baseline house sizes 1..30; direct-seat maps with sum <= house size (none, below the share, skewed above it, '
         'random; parties with direct seats but no proportional seat; parties without a votes entry); proportional '
@@ -110,20 +116,47 @@ class _Mock:
         return dict(self.res)
 
 
-def _ev(name):
+HA_EVALS = ['d_hondt', 'sainte_lague', 'd_hondt_mod', 'sainte_lague_mod']
+ALL_EVALS = EVALS + ['d_hondt_mod', 'sainte_lague_mod']
+_MOD = {'d_hondt_mod': ('d_hondt', Fraction(3, 2)), 'sainte_lague_mod': ('sainte_lague', Fraction(7, 5))}
+
+
+def _ev(name, coeftype='fraction'):
+    """a FRESH evaluator object.  '<divisor>_mod' = HighestAverages(modified_first_coef(divisor, c)) with c = 3/2
+    (D'Hondt) or 7/5 (Sainte-Lague); `coeftype` says as what the coefficient is handed over: Fraction, Decimal, the
+    library default (Decimal('1.4'), Sainte-Lague only) or a dyadic float (1.5, D'Hondt only) - all the same number"""
     import votelib.evaluate.proportional as vp
+    import votelib.component.divisor as vd
+    from decimal import Decimal
     if name == 'hare_lr':
         return vp.LargestRemainder('hare')
+    if name in _MOD:
+        base, c = _MOD[name]
+        f = getattr(vd, base)
+        if coeftype == 'default' and name == 'sainte_lague_mod':
+            return vp.HighestAverages(vd.modified_first_coef(f))
+        if coeftype == 'decimal':
+            return vp.HighestAverages(vd.modified_first_coef(f, Decimal(c.numerator) / Decimal(c.denominator)))
+        if coeftype == 'float' and name == 'd_hondt_mod':
+            return vp.HighestAverages(vd.modified_first_coef(f, 1.5))
+        return vp.HighestAverages(vd.modified_first_coef(f, c))
     return vp.HighestAverages(name)
 
 
-def _num(s):
+def _cev(case, key='evaluator'):
+    """the evaluator object the IMPLEMENTATION side uses for case[key] (coefficient type per case)"""
+    return _ev(case[key], case.get('_coeftype', 'fraction'))
+
+
+def _num(s, vtype='auto'):
     f = Fraction(s)
+    if vtype == 'fraction':
+        return f                     # always a Fraction object, also Fraction(0) and integer-valued ones
     return int(f) if f.denominator == 1 else f
 
 
 def _votes(case):
-    return {NAMES.n(i): _num(s) for i, s in case['votes']}
+    return {NAMES.n(i): _num(s, case.get('_vtype', 'auto')) for i, s in case['votes']}
 
 
 def _seats(pairs):
@@ -142,29 +175,70 @@ def _ci(case, name):
 
 
 def _cvotes(case):
-    return {_cn(case, c): {NAMES.n(i): _num(s) for i, s in vs} for c, vs in case['cvotes']}
+    return {_cn(case, c): {NAMES.n(i): _num(s, case.get('_vtype', 'auto')) for i, s in vs} for c, vs in case['cvotes']}
 
 
-def _cprev(case):
-    return {_cn(case, c): _seats(ps) for c, ps in case['cprev']}
+def _cprev(case, key='cprev'):
+    return {_cn(case, c): _seats(ps) for c, ps in case.get(key, [])}
 
 
-def _flat_calc(case, capped=True):
+def _add_nested(a, b):
+    out = {c: dict(d) for c, d in a.items()}
+    for c, d in b.items():
+        row = out.setdefault(c, {})
+        for p, k in d.items():
+            row[p] = row.get(p, 0) + k
+    return out
+
+
+def _cprev_total(case):
+    """direct seats by constituency seen by the adjusted stage: with three stages the sum of the two fixed stages"""
+    if case.get('wrap') == 'multistage3':
+        return _add_nested(_cprev(case), _cprev(case, 'cprev2'))
+    return _cprev(case)
+
+
+def _direct_pairs(case):
+    """direct seats (ids) seen by the adjusted stage of a flat case"""
+    d = {}
+    for i, k in case['prev'] + (case.get('prev2', []) if case.get('wrap') == 'multistage3' else []):
+        d[i] = d.get(i, 0) + k
+    return d
+
+
+_CALC = {'allow': 'AllowOverhang', 'level': 'LevelOverhang'}
+
+
+def _flat_objects(case):
+    """(calculator used to report the adjustment, its proxy, AdjustedSeatCount object, its calculator's proxy).
+    `_share` = 'shared': ONE evaluator object serves as the calculator's evaluator and as the distributing evaluator,
+    and the calculator object that reports the adjustment is the one inside AdjustedSeatCount; 'separate' (default):
+    fresh objects everywhere"""
     import votelib.evaluate.core as vc
-    ev = _ev(case['evaluator'])
-    if capped:
-        ev = _Capped(ev, 1 + case['fuel'])
-    return {'allow': vc.AllowOverhang, 'level': vc.LevelOverhang}[case['kind']](ev)
+    cls = getattr(vc, _CALC[case['kind']])
+    if case.get('_share') == 'shared' and case.get('final', case['evaluator']) == case['evaluator']:
+        e = _cev(case)
+        px = _Capped(e, 1 + case['fuel'])
+        calc = cls(px)
+        return calc, px, vc.AdjustedSeatCount(calc, e), px
+    px1 = _Capped(_cev(case), 1 + case['fuel'])
+    px2 = _Capped(_cev(case), 1 + case['fuel'])
+    return cls(px1), px1, vc.AdjustedSeatCount(cls(px2), _cev(case, 'final') if 'final' in case else _cev(case)), px2
 
 
 def _cty_calc(case):
     import votelib.evaluate.core as vc
-    ev = _ev(case['evaluator'])
+    ev = _cev(case)
     capp = case.get('capp', 'fixed')
-    apportioner = {_cn(case, c): k for c, k in case['app']} if capp == 'fixed' else _ev(capp)
+    if capp == 'fixed':
+        apportioner = {_cn(case, c): k for c, k in case['app']}
+    elif capp == 'uniform':
+        apportioner = case['app'][0][1]          # an int: the same number of seats for every constituency
+    else:
+        apportioner = _ev(capp)
     cev = vc.ByConstituency(ev, apportioner=apportioner)
     if case.get('overall', 'given') == 'given':
-        return vc.LevelOverhangByConstituency(cev, overall_evaluator=_Capped(_ev(case['evaluator']), 1 + case['fuel']))
+        return vc.LevelOverhangByConstituency(cev, overall_evaluator=_Capped(_cev(case), 1 + case['fuel']))
     # default overall evaluator = the constituency evaluator re-run and merged: one call for the constituency results,
     # one for the first overall result, then the loop
     return vc.LevelOverhangByConstituency(_Capped(cev, 2 + case['fuel']))
@@ -193,41 +267,94 @@ def _intres(x):
     return x if isinstance(x, int) and not isinstance(x, bool) else num_str(x)
 
 
+def _sum_seats(a, b):
+    out = dict(a)
+    for p, k in b.items():
+        out[p] = out.get(p, 0) + k
+    return out
+
+
+def _flat_eval(case, calc, px, asc, px2):
+    """one election through the given objects"""
+    import votelib.evaluate.core as vc
+    votes, prev, caps = _votes(case), _seats(case['prev']), _seats(case['max'])
+    wrap = case['wrap']
+    seen = _sum_seats(prev, _seats(case.get('prev2', []))) if wrap == 'multistage3' else prev
+    px.calls = 0
+    adj = guarded(lambda: _intres(calc.calculate(votes, case['n'], prev_gains=seen, max_seats=caps)))
+    px2.calls = 0
+    if wrap == 'multistage3':
+        ms = vc.MultistageDistributor([_Mock(prev), _Mock(_seats(case.get('prev2', []))), asc])
+        res = guarded(lambda: enc_distribution(ms.evaluate(votes, case['n'], max_seats=caps), NAMES))
+    elif wrap == 'multistage':
+        ms = vc.MultistageDistributor([_Mock(prev), asc])
+        res = guarded(lambda: enc_distribution(ms.evaluate(votes, case['n'], max_seats=caps), NAMES))
+    else:
+        res = guarded(lambda: enc_distribution(asc.evaluate(votes, case['n'], prev_gains=prev, max_seats=caps), NAMES))
+    return {'adj': adj, 'result': res}
+
+
+def _election(case, e):
+    c = {k: v for k, v in case.items() if k != 'elections'}
+    c.update(e)
+    c['op'] = 'adjusted_eval'
+    return c
+
+
 def impl(case):
     import votelib.evaluate.core as vc
     if case['op'] == 'overhang_calc':
         if case['kind'] == 'level_cty':
             return guarded(lambda: _intres(_cty_calc(case).calculate(_cvotes(case), case['n'], prev_gains=_cprev(case))))
         votes, prev, caps = _votes(case), _seats(case['prev']), _seats(case['max'])
-        return guarded(lambda: _intres(_flat_calc(case).calculate(votes, case['n'], prev_gains=prev, max_seats=caps)))
+        calc = _flat_objects(case)[0]
+        return guarded(lambda: _intres(calc.calculate(votes, case['n'], prev_gains=prev, max_seats=caps)))
     if case['op'] == 'adjusted_eval' and case['kind'] == 'level_cty':
         cvotes, cprev, n = _cvotes(case), _cprev(case), case['n']
-        adj = guarded(lambda: _intres(_cty_calc(case).calculate(cvotes, n, prev_gains=cprev)))
-        asc = vc.AdjustedSeatCount(_cty_calc(case), vc.ByParty(_ev(case['final']), allocator=_ev(case['alloc'])))
-        if case['wrap'] == 'multistage':
+        seen = _cprev_total(case)
+        adj = guarded(lambda: _intres(_cty_calc(case).calculate(cvotes, n, prev_gains=seen)))
+        alloc = _cev(case, 'alloc') if case.get('alloc') else None      # None: ByParty reuses its overall evaluator
+        asc = vc.AdjustedSeatCount(_cty_calc(case), vc.ByParty(_cev(case, 'final'), allocator=alloc))
+        if case['wrap'] == 'multistage3':
+            ms = vc.MultistageDistributor([_Mock(cprev), _Mock(_cprev(case, 'cprev2')), asc], depth=2)
+            res = guarded(lambda: _enc_nested(ms.evaluate(cvotes, n), case))
+        elif case['wrap'] == 'multistage':
             ms = vc.MultistageDistributor([_Mock(cprev), asc], depth=2)
             res = guarded(lambda: _enc_nested(ms.evaluate(cvotes, n), case))
         else:
             res = guarded(lambda: _enc_nested(asc.evaluate(cvotes, n, prev_gains=cprev), case))
         return {'adj': adj, 'result': res}
     if case['op'] == 'adjusted_eval':
-        votes, prev, caps = _votes(case), _seats(case['prev']), _seats(case['max'])
-        adj = guarded(lambda: _intres(_flat_calc(case).calculate(votes, case['n'], prev_gains=prev, max_seats=caps)))
-        asc = vc.AdjustedSeatCount(_flat_calc(case), _ev(case['final']))
-        if case['wrap'] == 'multistage':
-            ms = vc.MultistageDistributor([_Mock(prev), asc])
-            res = guarded(lambda: enc_distribution(ms.evaluate(votes, case['n'], max_seats=caps), NAMES))
-        else:
-            res = guarded(lambda: enc_distribution(asc.evaluate(votes, case['n'], prev_gains=prev, max_seats=caps), NAMES))
-        return {'adj': adj, 'result': res}
+        return _flat_eval(case, *_flat_objects(case))
+    if case['op'] == 'adjusted_seq':
+        # the SAME calculator / AdjustedSeatCount objects on several elections in a row; optionally a differently
+        # configured evaluator of the same class is used once before (module-level or class-level caches)
+        if case.get('_warm'):
+            e0 = _election(case, case['elections'][0])
+            guarded(lambda: _ev(case['_warm']).evaluate(_votes(e0), max(e0['n'], 1)))
+        objs = _flat_objects(case)
+        return [_flat_eval(_election(case, e), *objs) for e in case['elections']]
     raise ValueError(case['op'])
 
 
 def model_line(case):
-    return strip_case(case)
+    m = strip_case(case)
+    if m.get('capp') == 'uniform':
+        m['capp'] = 'fixed'                       # apportioner=int k  ==  {constituency: k for all}
+    if case.get('kind') == 'level_cty' and case['op'] == 'adjusted_eval' and not m.get('alloc'):
+        m['alloc'] = m['final']                   # allocator=None: the overall evaluator is reused
+    return m
 
 
 def compare(case, iobs, mobs):
+    if case['op'] == 'adjusted_seq':
+        if not isinstance(mobs, list) or len(mobs) != len(iobs):
+            return f'impl={json.dumps(canon(iobs))} model={json.dumps(mobs)}'
+        for k, (e, io, mo) in enumerate(zip(case['elections'], iobs, mobs)):
+            d = compare(_election(case, e), io, mo)
+            if d:
+                return f'election {k}: {d}'
+        return None
     if case['op'] == 'adjusted_eval':
         a = canon(iobs)
         b = {'adj': mobs.get('adj'), 'result': mobs.get('result')}
@@ -359,7 +486,7 @@ def _cty_results(case, cvotes, h):
     (fixed apportionment: h is irrelevant; apportioned: the apportioner distributes h over the constituencies by
     their vote totals, a constituency that is not an individual key of the apportionment gets no seats)"""
     capp = case.get('capp', 'fixed')
-    if capp == 'fixed':
+    if capp in ('fixed', 'uniform'):
         app = {_cn(case, c): k for c, k in case['app']}
     else:
         ev = _ev(capp)
@@ -373,7 +500,7 @@ def _cty_results(case, cvotes, h):
 
 def _cty_expected(case):
     """by-constituency levelling, literal: floors summed over constituencies, least e with overall(n-drop+e) >= floors"""
-    cvotes, cprev, n = _cvotes(case), _cprev(case), case['n']
+    cvotes, cprev, n = _cvotes(case), _cprev_total(case), case['n']
     props = _cty_results(case, cvotes, n)
     tier = []
     for r in props.values():
@@ -462,7 +589,11 @@ def _oracle_cty_eval(case, obs):
               'final_stage_error_by_party_outside_tier:' if exp is not None and exp['drop'] > 0 else 'final_stage_error:')
         return out + [(cl + str(res.get('err')) + ':' + case['final'], f'adjustment {adj}')]
     n = case['n']
-    direct = {c: {i: k for i, k in ps} for c, ps in case['cprev']}
+    direct = {}
+    for c, ps in case['cprev'] + (case.get('cprev2', []) if case['wrap'] == 'multistage3' else []):
+        for i, k in ps:
+            direct.setdefault(c, {})
+            direct[c][i] = direct[c].get(i, 0) + k
     totals = {}
     for ck, d in res:
         ck = ('tie',) + tuple(ck['tie']) if isinstance(ck, dict) else ck
@@ -471,7 +602,7 @@ def _oracle_cty_eval(case, obs):
             totals.setdefault(ck, {})[kk] = s
             if not isinstance(s, int) or s < 0:
                 out.append(('negative_gain', str(res)))
-    if case['wrap'] != 'multistage':
+    if case['wrap'] not in ('multistage', 'multistage3'):
         for c, d in direct.items():
             for p, k in d.items():
                 totals.setdefault(c, {})[p] = totals.get(c, {}).get(p, 0) + k
@@ -501,12 +632,16 @@ def _oracle_cty_eval(case, obs):
 
 def oracle(case, obs):
     out = []
+    if case['op'] == 'adjusted_seq':
+        for k, (e, o) in enumerate(zip(case['elections'], obs)):
+            out += [(cl, f'election {k}: {d}') for cl, d in oracle(_election(case, e), o)]
+        return out
     if case['op'] == 'overhang_calc' and case['kind'] == 'level_cty':
         return _cty_adj_clauses(case, obs)[0]
     if case['op'] == 'adjusted_eval' and case['kind'] == 'level_cty':
         return _oracle_cty_eval(case, obs)
     votes = _votes(case)
-    direct = {i: k for i, k in case['prev']}
+    direct = _direct_pairs(case)
     n = case['n']
     if case['op'] == 'overhang_calc':
         v, _ = _adj_clauses(case, obs, votes, direct)
@@ -527,7 +662,7 @@ def oracle(case, obs):
         gains_or_totals[kk] = s
     if any((not isinstance(s, int)) or s < 0 for s in gains_or_totals.values()):
         out.append(('negative_gain', str(res)))
-    if case['wrap'] == 'multistage':
+    if case['wrap'] in ('multistage', 'multistage3'):
         totals = gains_or_totals
     else:
         totals = dict(gains_or_totals)
@@ -556,6 +691,8 @@ def oracle(case, obs):
 
 
 def nontrivial(case, obs):
+    if case['op'] == 'adjusted_seq':
+        return any(nontrivial(_election(case, e), o) for e, o in zip(case['elections'], obs))
     if case['op'] == 'adjusted_eval' and case['kind'] == 'level_cty':
         return not isinstance(obs['result'], dict) and any(k for _, ps in case['cprev'] for _, k in ps)
     if case['op'] == 'adjusted_eval':
@@ -580,7 +717,13 @@ def _gen_votes(rng, m, kind):
         vs = [rng.randint(300, 1000)] + [rng.randint(20, 400) for _ in range(m - 1)]
         rng.shuffle(vs)
     else:
-        vs = [rng.randint(10 ** 9, 10 ** 12) for _ in range(m)]
+        # magnitudes beyond double precision; sometimes a near tie (v, v + 1) or an exact tie at that magnitude
+        top = rng.choice([10 ** 12, 2 ** 53, 10 ** 18, 10 ** 30])
+        vs = [rng.randint(top // 50, top) for _ in range(m)]
+        if top == 2 ** 53:
+            vs[0] = 2 ** 53 + rng.choice([-1, 0, 1])
+        if m >= 2 and rng.random() < 0.5:
+            vs[1] = vs[0] + rng.choice([0, 1, 1, -1])
     if all(v == 0 for v in vs):
         vs[rng.randrange(m)] = rng.randint(1, 5)
     if rng.random() < 0.08:
@@ -644,8 +787,46 @@ def _gen_direct(rng, m, vs, n, mode):
     return res
 
 
-def _flat_case(rng, op=None, kind=None, ev=None, vkind=None, dmode=None, n=None, wrap=None, zero_party=False):
-    m = rng.randint(2, 6)
+def _coeftype(rng, ev):
+    if ev == 'sainte_lague_mod':
+        return rng.choice(['fraction', 'decimal', 'default'])
+    if ev == 'd_hondt_mod':
+        return rng.choice(['fraction', 'decimal', 'float'])
+    return None
+
+
+def _finish_flat(rng, c, wrap=None, share=None):
+    """evaluator-object and wrapper dimensions of a flat adjusted_eval case"""
+    ev = c['evaluator']
+    ct = _coeftype(rng, ev)
+    if ct:
+        c['_coeftype'] = ct
+        c['_tags'].append('coef_' + ct)
+    if c['op'] != 'adjusted_eval':
+        return c
+    c.setdefault('final', ev if rng.random() < 0.9 else rng.choice(EVALS))
+    c['wrap'] = wrap or rng.choice(['none', 'none', 'multistage', 'multistage', 'multistage3'])
+    if c['wrap'] != 'none':
+        c['_tags'].append('multistage_wrapped')
+    if c['wrap'] == 'multistage3':
+        # split the direct seats over two fixed stages (e.g. electorate seats and a second fixed tier)
+        p1, p2 = [], []
+        for i, k in c['prev']:
+            a = rng.randint(0, k)
+            if a or rng.random() < 0.3:
+                p1.append([i, a])
+            if k - a or rng.random() < 0.3:
+                p2.append([i, k - a])
+        c['prev'], c['prev2'] = p1, p2
+        c['_tags'].append('multistage_3stages')
+    if c['final'] == ev:
+        c['_share'] = share or rng.choice(['shared', 'separate'])
+        c['_tags'].append('shared_evaluator' if c['_share'] == 'shared' else 'separate_evaluators')
+    return c
+
+
+def _flat_case(rng, op=None, kind=None, ev=None, vkind=None, dmode=None, n=None, wrap=None, zero_party=False, m=None):
+    m = m or rng.randint(2, 6)
     vkind = vkind or rng.choice(['small', 'small', 'mid', 'mid', 'skew', 'big'])
     vs = _gen_votes(rng, m, vkind)
     if zero_party:
@@ -656,27 +837,30 @@ def _flat_case(rng, op=None, kind=None, ev=None, vkind=None, dmode=None, n=None,
     dmode = dmode or rng.choice(['none', 'below', 'skew', 'skew', 'outside', 'random', 'random'])
     prev = _gen_direct(rng, m, vs, n, dmode)
     kind = kind or rng.choice(['allow', 'level', 'level'])
-    ev = ev or rng.choice(EVALS)
+    ev = ev or rng.choice(ALL_EVALS)
     op = op or rng.choice(['overhang_calc', 'adjusted_eval'])
     c = {'op': op, 'kind': kind, 'evaluator': ev, 'votes': [[i, num_str(v)] for i, v in enumerate(vs)], 'n': n,
          'prev': prev, 'max': [], 'fuel': FUEL, '_tags': [kind, ev]}
-    if op == 'adjusted_eval':
-        c['final'] = ev if rng.random() < 0.9 else rng.choice(EVALS)
-        c['wrap'] = wrap or rng.choice(['none', 'multistage'])
-        if c['wrap'] == 'multistage':
-            c['_tags'].append('multistage_wrapped')
-    return c
+    if rng.random() < 0.12:
+        c['_vtype'] = 'fraction'
+        c['_tags'].append('votes_all_fraction')
+    if any(isinstance(v, Fraction) and v.denominator != 1 for v in vs):
+        c['_tags'].append('votes_fraction')
+    if max(vs) >= 10 ** 18:
+        c['_tags'].append('votes_ge_1e18')
+    return _finish_flat(rng, c, wrap=wrap)
 
 
 def _cty_case(rng, ev=None, op=None, wrap=None, overall=None, clash=None):
     m = rng.randint(2, 5)
     nc = rng.randint(2, 3)
-    ev = ev or rng.choice(EVALS)
+    ev = ev or rng.choice(ALL_EVALS)
     cvotes, cprev, app = [], [], []
     vkind = rng.choice(['small', 'mid', 'mid', 'skew', 'skew'])
+    uniform = rng.randint(1, 6) if rng.random() < 0.12 else None
     for c in range(nc):
         vs = _gen_votes(rng, m, vkind)
-        seats = rng.randint(0 if rng.random() < 0.1 else 1, 8)
+        seats = uniform or rng.randint(0 if rng.random() < 0.1 else 1, 8)
         cvotes.append([c, [[i, num_str(v)] for i, v in enumerate(vs)]])
         app.append([c, seats])
         if seats:
@@ -689,8 +873,8 @@ def _cty_case(rng, ev=None, op=None, wrap=None, overall=None, clash=None):
     overall = overall or ('none' if rng.random() < 0.2 else 'given')
     # constituency evaluator: fixed apportionment dict, or an apportioning evaluator (always in most default-overall cases:
     # with a fixed apportionment the default overall result does not depend on the house size)
-    capp = 'fixed'
-    if (overall == 'none' and rng.random() < 0.85) or (overall == 'given' and rng.random() < 0.2):
+    capp = 'uniform' if uniform else 'fixed'
+    if (overall == 'none' and rng.random() < 0.85) or (overall == 'given' and not uniform and rng.random() < 0.2):
         capp = rng.choice(['d_hondt', 'sainte_lague', ev])
     c = {'op': op or rng.choice(['overhang_calc', 'adjusted_eval']), 'kind': 'level_cty', 'evaluator': ev,
          'overall': overall, 'capp': capp, 'cvotes': cvotes, 'cprev': cprev, 'app': app, 'n': n, 'fuel': FUEL,
@@ -698,8 +882,14 @@ def _cty_case(rng, ev=None, op=None, wrap=None, overall=None, clash=None):
     if overall == 'none':
         c['op'] = 'overhang_calc'       # the distributing ByParty stage is specified for a nationwide overall evaluator
         c['_tags'].append('default_overall')
-    if capp != 'fixed':
+    if capp == 'uniform':
+        c['_tags'].append('apportioner_int')
+    elif capp != 'fixed':
         c['_tags'].append('apportioned')
+    ct = _coeftype(rng, ev)
+    if ct:
+        c['_coeftype'] = ct
+        c['_tags'].append('coef_' + ct)
     # name clash between key kinds: a constituency that is the same object as a party
     if clash is None:
         r = rng.random()
@@ -717,9 +907,28 @@ def _cty_case(rng, ev=None, op=None, wrap=None, overall=None, clash=None):
         # a tied overall result (ByParty treats the Tie as a party without votes), so as in the DE example the allocator
         # is a highest-averages evaluator
         c['alloc'] = ev if ev != 'hare_lr' else 'sainte_lague'
-        c['wrap'] = wrap or rng.choice(['none', 'multistage'])
-        if c['wrap'] == 'multistage':
+        if c['alloc'] == ev and rng.random() < 0.3:
+            c['alloc'] = None                    # ByParty(overall, allocator=None): the overall evaluator allocates
+            c['_tags'].append('allocator_default')
+        c['wrap'] = wrap or rng.choice(['none', 'multistage', 'multistage', 'multistage3'])
+        if c['wrap'] != 'none':
             c['_tags'] += ['multistage_wrapped', 'multistage_depth2']
+        if c['wrap'] == 'multistage3':
+            p1, p2 = [], []
+            for cty, ps in c['cprev']:
+                a1, a2 = [], []
+                for i, k in ps:
+                    a = rng.randint(0, k)
+                    if a or rng.random() < 0.3:
+                        a1.append([i, a])
+                    if k - a or rng.random() < 0.3:
+                        a2.append([i, k - a])
+                if a1 or rng.random() < 0.5:
+                    p1.append([cty, a1])
+                if a2 or rng.random() < 0.5:
+                    p2.append([cty, a2])
+            c['cprev'], c['cprev2'] = p1, p2
+            c['_tags'].append('multistage_3stages_depth2')
     return c
 
 
@@ -742,7 +951,7 @@ def _post_tags(case):
             t.append('overhang_present')
         return
     votes = _votes(case)
-    direct = {i: k for i, k in case['prev']}
+    direct = _direct_pairs(case)
     vids = {i for i, _ in case['votes']}
     if any(i not in vids for i in direct):
         t.append('party_without_votes')
@@ -850,6 +1059,170 @@ def _directed_alabama(rng, count):
     return out
 
 
+def _directed_scaled_ties(rng, count):
+    """exact ties at the levelling boundary at magnitudes beyond double precision and with fractional votes: the
+    intermediate-tie shapes, every vote multiplied by the same factor (highest averages / Hare-LR are scale invariant)"""
+    out = []
+    base = _directed_intermediate_tie(rng, count)
+    for c in base[:count]:
+        k = rng.choice([10 ** 18, 10 ** 30, 2 ** 61 - 1, Fraction(10 ** 18, 3), Fraction(1, 7), Fraction(2, 3)])
+        c = dict(c)
+        c['votes'] = [[i, num_str(Fraction(v) * k)] for i, v in c['votes']]
+        c['_tags'] = [t for t in c['_tags'] if t != 'directed'] + ['directed', 'scaled_tie']
+        if isinstance(k, Fraction):
+            c['_tags'].append('fraction_votes_tie')
+            if rng.random() < 0.5:
+                c['_vtype'] = 'fraction'
+        else:
+            c['_tags'].append('big_votes_tie')
+        out.append(c)
+    return out
+
+
+def _directed_zero_and_seatless(rng, count):
+    """in ONE case: a party with direct seats but zero votes (sometimes two zero-vote parties), and a party with votes
+    but neither a proportional nor a direct seat"""
+    out = []
+    tries = 0
+    while len(out) < count and tries < 40 * count:
+        tries += 1
+        ev = rng.choice(ALL_EVALS)
+        m = rng.randint(4, 6)
+        vs = [rng.randint(300, 900), rng.randint(200, 700)] + [rng.randint(1, 12)] + [0] * (m - 3)
+        if m >= 5 and rng.random() < 0.5:
+            vs[3] = rng.randint(100, 400)
+        n = rng.randint(3, 12)
+        try:
+            base = _bb(ev, {NAMES.n(i): v for i, v in enumerate(vs)}, n)
+        except _Refused:
+            continue
+        if 2 in base:                      # the small party must stay without a proportional seat
+            continue
+        d = [0] * m
+        d[m - 1] = rng.randint(1, 2)       # zero votes, direct seats
+        if rng.random() < 0.6:
+            d[0] = base.get(0, 0) + rng.randint(-1, 2)
+        d = [max(k, 0) for k in d]
+        if sum(d) > n:
+            continue
+        kind = rng.choice(['allow', 'level'])
+        c = {'op': rng.choice(['overhang_calc', 'adjusted_eval']), 'kind': kind, 'evaluator': ev,
+             'votes': [[i, num_str(v)] for i, v in enumerate(vs)], 'n': n, 'prev': [[i, k] for i, k in enumerate(d) if k],
+             'max': [], 'fuel': FUEL, '_tags': [kind, ev, 'directed', 'zero_direct_and_seatless_voter']}
+        if sum(1 for v in vs if v == 0) >= 2:
+            c['_tags'].append('two_zero_vote_parties')
+        out.append(_finish_flat(rng, c))
+    return out
+
+
+def _directed_small_houses(rng, count):
+    """house sizes 0 and 1, and houses smaller than the direct seats (by 2 or more) while the parties outside the tier
+    still fit (`n_seats >= nonprop_drop`; beyond that the adjusters evaluate a negative house - outside the model)"""
+    out = []
+    tries = 0
+    while len(out) < count and tries < 60 * count:
+        tries += 1
+        ev = rng.choice(ALL_EVALS)
+        m = rng.randint(2, 5)
+        vs = _gen_votes(rng, m, rng.choice(['small', 'mid', 'skew']))
+        shape = ['house_0', 'house_1', 'house_below_direct'][len(out) % 3]
+        n = {'house_0': 0, 'house_1': 1}.get(shape) if shape != 'house_below_direct' else rng.randint(1, 8)
+        d = [0] * (m + 1)
+        if shape == 'house_below_direct':
+            try:
+                base = _bb(ev, {NAMES.n(i): v for i, v in enumerate(vs)}, n)
+            except _Refused:
+                continue
+            tier = [i for i in range(m) if i in base]
+            if not tier:
+                continue
+            for i in rng.sample(tier, min(len(tier), rng.choice([1, 2]))):
+                d[i] = n + rng.randint(1, 3)
+            if sum(d) < n + 2:
+                continue
+        else:
+            for i in range(m + 1):
+                if rng.random() < 0.4:
+                    d[i] = rng.randint(0, 1 if n else 2)
+            if n and sum(d) > n:
+                continue
+        kind = rng.choice(['allow', 'level'])
+        c = {'op': rng.choice(['overhang_calc', 'adjusted_eval']), 'kind': kind, 'evaluator': ev,
+             'votes': [[i, num_str(v)] for i, v in enumerate(vs)], 'n': n, 'prev': [[i, k] for i, k in enumerate(d) if k],
+             'max': [], 'fuel': FUEL, '_tags': [kind, ev, 'directed', shape]}
+        out.append(_finish_flat(rng, c))
+    return out
+
+
+def _directed_wasted_votes(rng, count):
+    """5-6 parties, three or more of them with votes but without any seat (wasted votes), overhang among the others"""
+    out = []
+    tries = 0
+    while len(out) < count and tries < 60 * count:
+        tries += 1
+        ev = rng.choice(ALL_EVALS)
+        m = rng.choice([5, 6, 6])
+        big = [rng.randint(3000, 6000), rng.randint(2000, 5000)] + ([rng.randint(800, 2000)] if m == 6 else [])
+        tiny = [rng.randint(20, 260) for _ in range(m - len(big))]
+        vs = big + tiny
+        n = rng.randint(4, 14)
+        try:
+            base = _bb(ev, {NAMES.n(i): v for i, v in enumerate(vs)}, n)
+        except _Refused:
+            continue
+        if sum(1 for i in range(m) if vs[i] > 0 and i not in base) < 3 or any(isinstance(k, tuple) for k in base):
+            continue
+        d = [0] * m
+        j = rng.randrange(len(big))
+        d[j] = base.get(j, 0) + rng.randint(1, 3)
+        if rng.random() < 0.4:
+            d[rng.randrange(len(big), m)] = 1           # a seatless voter with a direct seat (outside the tier)
+        if sum(d) > n:
+            continue
+        order = list(range(m))
+        rng.shuffle(order)
+        kind = rng.choice(['allow', 'level', 'level'])
+        c = {'op': rng.choice(['overhang_calc', 'adjusted_eval']), 'kind': kind, 'evaluator': ev,
+             'votes': [[i, num_str(vs[i])] for i in order], 'n': n, 'prev': [[i, d[i]] for i in order if d[i]],
+             'max': [], 'fuel': FUEL, '_tags': [kind, ev, 'directed', 'many_wasted_votes']}
+        out.append(_finish_flat(rng, c))
+    return out
+
+
+def _directed_sequences(rng, count):
+    """the same calculator / AdjustedSeatCount objects on two or three elections in a row: a larger election before a
+    smaller one, an election the evaluator refuses (nobody has votes) before a regular one, sometimes after a
+    differently configured evaluator of the same class was used"""
+    out = []
+    for k in range(count):
+        ev = rng.choice(ALL_EVALS)
+        kind = rng.choice(['allow', 'level', 'level'])
+        els = []
+        tags = [kind, ev, 'directed', 'two_elections']
+        if k % 4 == 0:
+            els.append({'votes': [[i, '0'] for i in range(3)], 'n': rng.randint(1, 4), 'prev': [[0, 1]], 'max': []})
+            tags.append('second_after_refusal')
+        m = rng.randint(3, 6)
+        for j in range(2):
+            f = _flat_case(rng, op='overhang_calc', kind=kind, ev=ev, m=m if rng.random() < 0.6 else None,
+                           n=rng.randint(12, 30) if j == 0 else rng.randint(1, 11),
+                           dmode=rng.choice(['skew', 'skew', 'outside', 'below']))
+            els.append({'votes': f['votes'], 'n': f['n'], 'prev': f['prev'], 'max': []})
+        c = {'op': 'adjusted_seq', 'kind': kind, 'evaluator': ev, 'final': ev, 'wrap': rng.choice(['none', 'multistage']),
+             'fuel': FUEL, 'elections': els, '_tags': tags}
+        ct = _coeftype(rng, ev)
+        if ct:
+            c['_coeftype'] = ct
+            c['_tags'].append('coef_' + ct)
+        c['_share'] = rng.choice(['shared', 'separate'])
+        c['_tags'].append('shared_evaluator' if c['_share'] == 'shared' else 'separate_evaluators')
+        if rng.random() < 0.5:
+            c['_warm'] = rng.choice([e for e in HA_EVALS if e != ev])
+            c['_tags'].append('other_configuration_first')
+        out.append(c)
+    return out
+
+
 def generate(rng, tier):
     N = 2000 if tier == 'quick' else 40000
     cases = []
@@ -882,6 +1255,16 @@ def generate(rng, tier):
             cases.append(c0)
     cases += _directed_intermediate_tie(rng, 30 if tier == 'quick' else 300)
     cases += _directed_alabama(rng, 30 if tier == 'quick' else 300)
+    k = 36 if tier == 'quick' else 360
+    cases += _directed_scaled_ties(rng, k)
+    cases += _directed_zero_and_seatless(rng, k)
+    cases += _directed_small_houses(rng, k)
+    cases += _directed_wasted_votes(rng, k)
+    cases += _directed_sequences(rng, k)
+    for ev in ['d_hondt_mod', 'sainte_lague_mod']:          # directed share for the modified first coefficient
+        for _ in range(k // 2):
+            cases.append(_flat_case(rng, kind=rng.choice(['allow', 'level']), ev=ev, dmode='skew', vkind=rng.choice(['skew', 'small'])))
+            cases.append(_cty_case(rng, ev=ev, overall='given'))
     if tier == 'thorough':
         # small-scope exhaustive: all vote vectors over {0..3}^2 (n <= 5) and {0..2}^3 (n <= 3), all direct maps with
         # entries <= 2 and sum <= n over the parties and one party without votes, 3 evaluators, allow and level
@@ -900,11 +1283,21 @@ def generate(rng, tier):
                                               'prev': [[i, k] for i, k in enumerate(dm) if k], 'max': [], 'fuel': FUEL,
                                               '_tags': [kind, ev, 'exhaustive']})
     for c in cases:
+        if c['op'] == 'adjusted_seq':
+            yield c
+            continue
         _post_tags(c)
         yield c
 
 
 def shrink_candidates(case):
+    if case['op'] == 'adjusted_seq':
+        if len(case['elections']) > 1:
+            for i in range(len(case['elections'])):
+                c = dict(case)
+                c['elections'] = case['elections'][:i] + case['elections'][i+1:]
+                yield c
+        return
     if case.get('kind') == 'level_cty':
         for i in range(len(case['cprev'])):
             c = dict(case)
@@ -931,28 +1324,52 @@ def shrink_candidates(case):
         yield c
 
 
+def _evdesc(case, key):
+    name = case.get(key)
+    if not name:
+        return 'None'
+    ct = case.get('_coeftype', 'fraction')
+    coef = {'fraction': {'d_hondt_mod': 'Fraction(3, 2)', 'sainte_lague_mod': 'Fraction(7, 5)'},
+            'decimal': {'d_hondt_mod': "Decimal('1.5')", 'sainte_lague_mod': "Decimal('1.4')"},
+            'default': {'d_hondt_mod': 'Fraction(3, 2)', 'sainte_lague_mod': '<default>'},
+            'float': {'d_hondt_mod': '1.5', 'sainte_lague_mod': 'Fraction(7, 5)'}}[ct]
+    return {'d_hondt': "HighestAverages('d_hondt')", 'sainte_lague': "HighestAverages('sainte_lague')",
+            'hare_lr': "LargestRemainder('hare')",
+            'd_hondt_mod': f"HighestAverages(modified_first_coef(d_hondt, {coef['d_hondt_mod']}))",
+            'sainte_lague_mod': f"HighestAverages(modified_first_coef(sainte_lague, {coef['sainte_lague_mod']}))"}[name]
+
+
 def describe(case):
-    evs = {'d_hondt': "HighestAverages('d_hondt')", 'sainte_lague': "HighestAverages('sainte_lague')",
-           'hare_lr': "LargestRemainder('hare')"}
+    if case['op'] == 'adjusted_seq':
+        return ('the same objects on elections in a row: ' + ' ; THEN '.join(describe(_election(case, e)) for e in case['elections'])
+                + (f" (after a call of {case['_warm']})" if case.get('_warm') else ''))
+    share = ' [calculator and distributor share ONE evaluator object]' if case.get('_share') == 'shared' else ''
     if case.get('kind') == 'level_cty':
-        app = {_cn(case, c): k for c, k in case['app']} if case.get('capp', 'fixed') == 'fixed' else evs[case['capp']]
-        app = repr(app) if isinstance(app, dict) else app
-        ov = evs[case['evaluator']] if case.get('overall', 'given') == 'given' else 'None'
-        calc = (f"LevelOverhangByConstituency(ByConstituency({evs[case['evaluator']]}, apportioner={app}), "
+        capp = case.get('capp', 'fixed')
+        app = (repr({_cn(case, c): k for c, k in case['app']}) if capp == 'fixed' else
+               repr(case['app'][0][1]) if capp == 'uniform' else _evdesc({'e': capp}, 'e'))
+        ov = _evdesc(case, 'evaluator') if case.get('overall', 'given') == 'given' else 'None'
+        calc = (f"LevelOverhangByConstituency(ByConstituency({_evdesc(case, 'evaluator')}, apportioner={app}), "
                 f"overall_evaluator={ov})")
         if case['op'] == 'overhang_calc':
             return f"{calc}.calculate({_cvotes(case)!r}, {case['n']}, prev_gains={_cprev(case)!r})"
-        asc = f"AdjustedSeatCount({calc}, ByParty({evs[case['final']]}, allocator={evs[case['alloc']]}))"
+        asc = f"AdjustedSeatCount({calc}, ByParty({_evdesc(case, 'final')}, allocator={_evdesc(case, 'alloc')}))"
+        if case['wrap'] == 'multistage3':
+            return (f"MultistageDistributor([<stage returning {_cprev(case)!r}>, <stage returning "
+                    f"{_cprev(case, 'cprev2')!r}>, {asc}], depth=2).evaluate({_cvotes(case)!r}, {case['n']})")
         if case['wrap'] == 'multistage':
             return (f"MultistageDistributor([<stage returning {_cprev(case)!r}>, {asc}], depth=2)"
                     f".evaluate({_cvotes(case)!r}, {case['n']})")
         return f"{asc}.evaluate({_cvotes(case)!r}, {case['n']}, prev_gains={_cprev(case)!r})"
     cls = {'allow': 'AllowOverhang', 'level': 'LevelOverhang'}[case['kind']]
-    calc = f"{cls}({evs[case['evaluator']]})"
+    calc = f"{cls}({_evdesc(case, 'evaluator')})"
     votes, prev = _votes(case), _seats(case['prev'])
     if case['op'] == 'overhang_calc':
         return f"{calc}.calculate({votes!r}, {case['n']}, prev_gains={prev!r})"
-    asc = f"AdjustedSeatCount({calc}, {evs[case['final']]})"
+    asc = f"AdjustedSeatCount({calc}, {_evdesc(case, 'final')}){share}"
+    if case['wrap'] == 'multistage3':
+        return (f"MultistageDistributor([<stage returning {prev!r}>, <stage returning {_seats(case.get('prev2', []))!r}>, "
+                f"{asc}]).evaluate({votes!r}, {case['n']})")
     if case['wrap'] == 'multistage':
         return f"MultistageDistributor([<stage returning {prev!r}>, {asc}]).evaluate({votes!r}, {case['n']})"
     return f"{asc}.evaluate({votes!r}, {case['n']}, prev_gains={prev!r})"
@@ -967,7 +1384,8 @@ def signature(case, clause):
         return 'level_cty:direct_seats_without_local_share'
     if clause == 'house_size_by_party_outside_tier' or clause.startswith('final_stage_error_by_party_outside_tier:'):
         return 'level_cty:by_party_outside_tier'
-    return f"{case.get('op')}:{clause}"
+    op = 'adjusted_eval' if case.get('op') == 'adjusted_seq' else case.get('op')
+    return f"{op}:{clause}"
 
 
 TECHNIQUE = ('Lean 4 proofs about evaluator-parametric models of the seat-count adjusters (loop invariant of the fuelled '
